@@ -18,6 +18,7 @@ ASSUMPTIONS = [
     "the returned dict is read as total flow per ordered node pair (parallel arcs pooled)",
     "exact integer arithmetic, no tolerance",
 ]
+QUICK_SCALE = 3  # quick-tier multiplier (idle 16-core timing: ~10 s at scale 1)
 STRATA = [
     ("gadget", 8000, 100000),
     ("layered", 4000, 50000),
